@@ -1,0 +1,26 @@
+//go:build verif
+
+package i18mem
+
+// Machine-checked contracts for /verif (gowp). Comment-only file: it adds no code.
+
+//@ type I18Mem
+//@   field translates guarded_by muTranlsates
+//@   monitor muTranlsates invariant self.translates != nil
+
+// C20: after Set every key of the given map translates to its value; other keys keep theirs
+//@ func (*I18Mem).Set [C20]
+//@   requires i18.translates != nil
+//@   loop 1 invariant heldW(i18.muTranlsates) && i18.translates != nil && ref(i18.translates) == old(ref(i18.translates))
+//@   loop 1 invariant foralls(k, visited(k) ==> has(i18.translates, k) && i18.translates[k] == values[k])
+//@   loop 1 invariant foralls(k, !has(values, k) ==> has(i18.translates, k) == old(has(i18.translates, k)) && i18.translates[k] == old(i18.translates[k]))
+//@   ensures foralls(k, has(values, k) ==> has(i18.translates, k) && i18.translates[k] == values[k])
+//@   ensures foralls(k, !has(values, k) ==> has(i18.translates, k) == old(has(i18.translates, k)) && i18.translates[k] == old(i18.translates[k]))
+//@ func (*I18Mem).SetDefault [C20]
+//@   requires i18.translates != nil
+//@   loop 1 invariant heldW(i18.muTranlsates) && i18.translates != nil
+//@   loop 1 invariant foralls(k, old(has(i18.translates, k)) ==> has(i18.translates, k) && i18.translates[k] == old(i18.translates[k]))
+//@   ensures foralls(k, old(has(i18.translates, k)) ==> has(i18.translates, k) && i18.translates[k] == old(i18.translates[k]))
+//@ func (*I18Mem).Translate [C20]
+//@   layers contract lock
+//@   ensures !old(has(i18.translates, key)) ==> result1 != nil
